@@ -1,7 +1,7 @@
 (* C07: calls are dispatched to exactly the function whose selector they carry.
    Property theorems (statements at full strength over the models; proofs in *Proofs.v). *)
 From Coq Require Import ZArith List Bool Lia Permutation.
-From Verif Require Import Base.Word256 C07.Jumptable C07.JumptableProofs C07.Dispatch C07.DispatchProofs.
+From Verif Require Import Base.Word256 C07.Jumptable C07.JumptableProofs C07.Dispatch C07.DispatchProofs C07.DenseProofs.
 Import ListNotations.
 Open Scope Z_scope.
 
@@ -69,6 +69,53 @@ Proof.
 Qed.
 Print Assumptions C07_sparse_dispatch_generated.
 
+(* the arithmetic the dense dispatcher performs on 256-bit words is the arithmetic the builder performed on ints *)
+Theorem C07_image_no_overflow : forall x m n,
+  0 <= x < 2 ^ 32 -> 0 <= m < 2 ^ 16 -> 0 < n ->
+  w_mod (w_shr BITS_MAGIC (w_mul m x)) n = image1 n m x.
+Proof. exact image_no_overflow. Qed.
+Print Assumptions C07_image_no_overflow.
+
+Theorem C07_metadata_pack_unpack : forall mincds (np : bool) F,
+  1 <= F -> 4 <= mincds -> (mincds - 4) mod 32 = 0 -> mincds < 2 ^ (8 * F) ->
+  let meta := Z.lor mincds (Word256.b2z np) in
+  0 <= meta < 2 ^ (8 * F) /\
+  Z.land (2 ^ (F * 8) - 1 - 1) meta = mincds /\
+  Z.land 1 meta = Word256.b2z np.
+Proof. exact metadata_pack_unpack. Qed.
+Print Assumptions C07_metadata_pack_unpack.
+
+Theorem C07_image_order_position : forall l m x,
+  NoDup (image_of l m) -> In x l ->
+  nth_error (image_order l m) (Z.to_nat (image1 (zlen l) m x)) = Some x.
+Proof. exact image_order_nth. Qed.
+Print Assumptions C07_image_order_position.
+
+(* dense: for every table the builder returns and that fits the emitted field widths *)
+Theorem C07_dense_dispatch_spec : forall fns fb cd value n sol t,
+  calldata_ok cd -> value_ok value -> fns_ok fns -> Forall dense_entry_ok fns ->
+  generate_dense (map e_id fns) = JOk (Some (n, sol)) -> n <= 65536 ->
+  build_dense n sol fns = Some t ->
+  dense_dispatch_legacy t fns fb cd value = Some (spec_dispatch fns fb cd value) /\ dense_dispatch_venom t fns fb cd value = Some (spec_dispatch fns fb cd value).
+Proof. intros; split; [eapply dense_dispatch_legacy_spec | eapply dense_dispatch_venom_spec]; eassumption. Qed.
+Print Assumptions C07_dense_dispatch_spec.
+
+(* all six emitted dispatchers behave identically on every call *)
+Theorem C07_dispatch_strategies_agree : forall fns fb cd value ns bk nd sol t,
+  calldata_ok cd -> value_ok value -> fns_ok fns -> Forall dense_entry_ok fns -> fns <> [] ->
+  generate_sparse (map e_id fns) = JOk (ns, bk) ->
+  generate_dense (map e_id fns) = JOk (Some (nd, sol)) -> nd <= 65536 -> build_dense nd sol fns = Some t ->
+  let r := Some (spec_dispatch fns fb cd value) in
+  Some (linear_dispatch_legacy fns fb cd value) = r /\ Some (linear_dispatch_venom fns fb cd value) = r /\ sparse_dispatch_legacy ns bk fns fb cd value = r /\ sparse_dispatch_venom ns bk fns fb cd value = r /\ dense_dispatch_legacy t fns fb cd value = r /\ dense_dispatch_venom t fns fb cd value = r.
+Proof.
+  intros fns fb cd value ns bk nd sol t Hcd Hv Hok Hd Hne Hs Hg Hn Hb r. subst r.
+  destruct (C07_linear_dispatch_spec fns fb cd value Hcd) as [-> ->].
+  destruct (C07_sparse_dispatch_generated fns fb cd value ns bk Hcd Hok Hne Hs) as [-> ->].
+  destruct (C07_dense_dispatch_spec fns fb cd value nd sol t Hcd Hv Hok Hd Hg Hn Hb) as [-> ->].
+  repeat split; reflexivity.
+Qed.
+Print Assumptions C07_dispatch_strategies_agree.
+
 (* non-vacuity: a three-entry table (one id with a trailing zero byte), short calldata that zero-pads to it *)
 Definition ex_fns : list entry :=
   [mkEntry 0x12345600 false 4 0; mkEntry 0xa9059cbb true 68 1; mkEntry 0x12345601 false 36 2].
@@ -79,11 +126,16 @@ Example C07_nonvacuous :
   spec_dispatch ex_fns None [0x12; 0x34; 0x56; 0x00] 1 = Revert /\
   (exists n bk, generate_sparse (map e_id ex_fns) = JOk (n, bk) /\
      sparse_dispatch_legacy n bk ex_fns (Some false) [0x12; 0x34; 0x56] 0 = Some Default) /\
-  (exists n sol, generate_dense (map e_id ex_fns) = JOk (Some (n, sol))).
+  (exists n sol t, generate_dense (map e_id ex_fns) = JOk (Some (n, sol)) /\ n <= 65536 /\
+     build_dense n sol ex_fns = Some t /\ Forall dense_entry_ok ex_fns /\
+     dense_dispatch_legacy t ex_fns (Some false) [0x12; 0x34; 0x56] 0 = Some Default).
 Proof.
   split. { split; [repeat constructor; cbn; lia | cbn; repeat constructor; cbn; intuition lia]. }
   split. { repeat constructor; lia. }
-  repeat split; try (vm_compute; reflexivity).
+  split; [vm_compute; reflexivity|]. split; [vm_compute; reflexivity|]. split; [vm_compute; reflexivity|].
+  split.
   - eexists; eexists; split; vm_compute; reflexivity.
-  - eexists; eexists; vm_compute; reflexivity.
+  - eexists; eexists; eexists. split; [vm_compute; reflexivity|]. split; [lia|]. split; [vm_compute; reflexivity|].
+    split; [|vm_compute; reflexivity].
+    unfold dense_entry_ok. repeat constructor; cbn [e_mincds e_target]; lia.
 Qed.
